@@ -524,6 +524,28 @@ def vacuity_run(text, linemap, mods, units, sub):
     return len(spans), vac
 
 
+def restructured_functions(text, linemap, info, units):
+    """functions whose source text differs from the annotated baseline by more than small in-place edits (statements
+    added, removed or moved; new functions): their proof hints were written for a different text, so a failing obligation
+    in them is not believed without a concrete counterexample"""
+    struct = {}
+    for m in info['modules']:
+        struct[m['name'] + '.rs'] = set(m.get('changed', {}).get('struct', []))
+    res = set()
+    for f in function_spans(text):
+        if f['module'] in ('', 'verif_specs'):
+            continue
+        hit = False
+        for no in range(f['start'], min(f['end'], len(linemap)) + 1):
+            o = linemap[no - 1]
+            if o[0] == 'src' and o[2] in struct.get(o[1], ()):
+                hit = True
+                break
+        if hit or (f['has_body'] and f['name'] not in units and linemap[f['start'] - 1][0] == 'src'):
+            res.add(f['name'])
+    return res
+
+
 def undecided_witness(pid, cfg, all_undec, seed, work, units):
     if os.environ.get('VERIF_NO_WITNESS'):
         return None
@@ -590,8 +612,10 @@ def decide(pid, cfg, tier, seed, units, work, ev):
         pre = ['verif_specs'] if fs == mirror.ALL_FEATURES else []
         res = run_verus(mpath, pre + mods, threads=16 if len(feature_sets) == 1 else 6)
         fails, undec = classify(res, text, linemap, units)
+        restr = restructured_functions(text, linemap, info, units)
         for f in fails:
             f['features'] = list(fs)
+            f['restructured'] = f['function'] in restr
         extra_undec = []
         if tier == 'thorough' and fs == mirror.ALL_FEATURES:
             # proof-stability reruns with different solver seeds: a flip is reported as unstable, not as a violation
@@ -716,6 +740,36 @@ def decide(pid, cfg, tier, seed, units, work, ev):
         has_cex = any(k.get('concrete_playback') for k in kani_failed)
         print('VIOLATION property=%s replay=%s%s' % (pid, rpath, '' if has_cex else ' no-failing-input-found'))
         return 1
+    mine_restr = [f for f in mine if f.get('restructured')]
+    if mine and len(mine_restr) == len(mine) and not kani_failed:
+        # Every failing obligation of this property lies in a function that was restructured relative to the annotated
+        # baseline (statements added / removed / moved, helper extracted ...).  The proof hints no longer fit that text, so
+        # the failure may be the proof's, not the code's: it is reported as a violation only together with a concrete
+        # counterexample on the real code; otherwise the property is undecided.
+        w = None
+        try:
+            import witness
+            w = witness.search_support(pid, mine_restr, seed, work, units)
+        except Exception as e:
+            log('witness search failed: %s' % e)
+        for f in mine_restr[:4]:
+            print('obligation failed in a restructured function: %s / %s :: %s' % (f['function'], f['message'], f['clause'][:160]))
+        if w:
+            ev['violations'] = 1
+            ev['coverage']['decided_by'] = 'obligation failed in a restructured function + witness on the real code'
+            rdir = os.path.join(VERIF, 'replays') if 'VERIF_NO_EVIDENCE' not in os.environ else os.path.join(work, 'replays')
+            os.makedirs(rdir, exist_ok=True)
+            h = hashlib.sha256(json.dumps([w.get('input'), w.get('driver')]).encode()).hexdigest()[:10]
+            rpath = os.path.join(rdir, '%s-%s.json' % (pid, h))
+            json.dump({'property': pid, 'failed_obligations': [
+                {'obligation': '%s / %s' % (f['function'], f['message']), 'clause': f['clause'], 'tags': f['tags'],
+                 'origin': f['origin'], 'features': f['features'], 'verifier_output': f['rendered']} for f in mine_restr], 'witness': w},
+                open(rpath, 'w'), indent=1)
+            print('counterexample on the real code: %s  expected %s  actual %s' % (w.get('input'), str(w.get('expected'))[:300], str(w.get('actual'))[:300]))
+            print('VIOLATION property=%s replay=%s' % (pid, rpath))
+            return 1
+        print('UNDECIDED property=%s (the failing obligations are in restructured functions; no concrete violation of %s found on the real code)' % (pid, pid))
+        return 2
     if mine:
         # known findings
         unknown = []
